@@ -65,6 +65,9 @@ Attrs == <<
   [n |-> "build.ssh", top |-> FALSE, p |-> <<"build", "ssh">>, alts |-> {Sq1(S("default")), Sq1(S("k=/p")), M1("k", S("/q")), Sq2(S("default"), S("j=/r"))}],
   [n |-> "build.ulimits", top |-> FALSE, p |-> <<"build", "ulimits">>, alts |-> {M1("nofile", I(100)), M1("nofile", M2("soft", I(10), "hard", I(20))), M1("nproc", I(5))}],
   [n |-> "extra_hosts", top |-> FALSE, p |-> <<"extra_hosts">>, alts |-> {M1("h", L(<<S("10.0.0.2"), S("10.0.0.10")>>)), Sq1(S("g=1.1.1.1")), Sq2(S("h=10.0.0.10"), S("h=10.0.0.3")), M1("g", S("2.2.2.2"))}],
+  \* a resource whose name starts with x- is a resource like any other (its name is the user's, not an extension key)
+  [n |-> "labels of a volume named x-data", top |-> TRUE, p |-> <<"volumes", "x-data", "labels">>, alts |-> {Sq1(S("a=1")), M2("a", S("2"), "b", S("3"))}],
+  [n |-> "driver_opts of a network named x-net", top |-> TRUE, p |-> <<"networks", "x-net", "driver_opts">>, alts |-> {M1("o1", S("1")), M2("o1", S("2"), "o2", S("3"))}],
   [n |-> "networks.labels", top |-> TRUE, p |-> <<"networks", "n1", "labels">>, alts |-> {Sq1(S("a=1")), M2("a", S("2"), "b", S("3"))}],
   [n |-> "volumes.labels", top |-> TRUE, p |-> <<"volumes", "data", "labels">>, alts |-> {Sq1(S("a=1")), M2("a", S("2"), "b", S("3"))}],
   [n |-> "networks.driver_opts", top |-> TRUE, p |-> <<"networks", "n1", "driver_opts">>, alts |-> {M1("o1", S("1")), M2("o1", S("2"), "o2", S("3"))}]
